@@ -125,6 +125,8 @@ def strategy_script(world, sname, n_bars):
         # cycles through the first and last default operation and, where the market has them, a mark-capped and a limit-priced option order
         all_labels = [o.label for o in world.alphabet(kit.replay_history(lambda: _fresh0(world), world.alphabet, root)[0])]
         cyc = ([kit_ops[0], kit_ops[-1]] if kit_ops else []) + [l for l in all_labels if l.endswith(("buy[C1,1,cap3]", "buy[C1,2,L0]", "sell[C1,1,cap3]"))]
+        # cash moves in and out of the option account on any bar, also between two hourly books
+        cyc += [l for l in all_labels if l in ("deribit.deposit[part]", "deribit.withdraw[part]")]
         sc = list(base)
         for b in range(1, n_bars):
             if cyc:
@@ -180,11 +182,20 @@ def run_once(world, sname, interval):
                     out = kit.apply(r.ctx, ops[lab])
                     r.outcomes.append((snapshot.row_id, "on_bar", lab, "ok" if out.ok else "rejected", out.error))
         st.script.setdefault(("on_bar", "*"), []).append(decide)
+    # the account history of a bar is fixed once the bar is over: every row is digested when the NEXT bar begins and again after the run
+    rows_when_written = {}
+
+    def remember(strategy, snapshot):
+        lst = r.act.account_status
+        if lst and len(lst) - 1 not in rows_when_written:
+            rows_when_written[len(lst) - 1] = _status_digest(lst[-1])
+    r.strategy.script.setdefault(("before_bar", "*"), []).append(remember)
     px_before = r.price_input_digest  # taken before the frame was handed to Actuator.set_price
     r.go()
     act = r.act
+    rewritten = [i for i, d in sorted(rows_when_written.items()) if i < len(act.account_status) and _status_digest(act.account_status[i]) != d]
     px_after = frame_digest(r.price_input)
-    obs = {"price_input_changed": px_before != px_after, "error": r.error, "bars": [], "rows": [], "actions": [], "snaps": list(r.strategy.snap_digests), "outcomes": [o[:4] for o in r.outcomes]}
+    obs = {"rows_rewritten": rewritten[:5], "rows_digested": len(rows_when_written), "price_input_changed": px_before != px_after, "error": r.error, "bars": [], "rows": [], "actions": [], "snaps": list(r.strategy.snap_digests), "outcomes": [o[:4] for o in r.outcomes]}
     if r.error is None:
         df = act.account_status_df
         obs["bars"] = list(df.index)
@@ -194,6 +205,12 @@ def run_once(world, sname, interval):
         obs["columns"] = [str(c) for c in df.columns]
         obs["actions"] = [(a.timestamp, repr(a)) for a in act.actions]
     return obs
+
+
+def _status_digest(st):
+    from mc.worlds.base import cell_repr
+
+    return (str(st.timestamp),) + tuple(cell_repr(v) for v in st.to_array())
 
 
 def frames_digest(world):
@@ -220,6 +237,11 @@ def judge_pair(part, wname, interval, sname, k_raw, vkind):
     a = run_once(base, sname, interval)
     b = run_once(var, sname, interval)
     part.count("pairs")
+    for run_obs in (a, b):
+        if run_obs.get("rows_rewritten"):
+            part.violation("C02|history|row-rewritten", "a row of the account history changed after its bar was over (what bars 0..k show depends on later bars)", case,
+                           {"rows": run_obs["rows_rewritten"]})
+            break
     if a["error"] or b["error"]:
         # a run that fails is judged by the other properties; here both must at least fail alike on the prefix — not comparable, count it
         if a["error"] and not b["error"] or (b["error"] and not a["error"]):
@@ -272,6 +294,10 @@ def judge_inputs(part, wname, interval, sname):
     changed = [k for k in d0 if d0[k] != d1[k]] + (["prices(as handed to set_price)"] if a.get("price_input_changed") else [])
     if changed:
         part.violation(f"C02|inputs|modified|{'+'.join(sorted(c.split('.')[0] for c in changed))}", "a backtest modified the market data / price frames it was given", case, {"frames": changed})
+    part.count("history_rows_digested_twice", a.get("rows_digested", 0))
+    if a.get("rows_rewritten"):
+        part.violation("C02|history|row-rewritten", "a row of the account history changed after its bar was over (what bars 0..k show depends on later bars)", case,
+                       {"rows": a["rows_rewritten"]})
     b = run_once(w, sname, interval)  # fresh Actuator, Broker and market objects on the SAME frames
     if a["error"] != b["error"] or a["rows"] != b["rows"] or a["actions"] != b["actions"] or [str(x) for x in a["bars"]] != [str(x) for x in b["bars"]]:
         first = next((i for i, (x, y) in enumerate(zip(a["rows"], b["rows"])) if x != y), None)
